@@ -79,7 +79,8 @@ type (
 	stringD1 string
 )
 
-var utf16Encoder = unicode.UTF16(unicode.BigEndian, unicode.IgnoreBOM).NewEncoder() // ucs2 is utf16 actually
+// encoder has a state, so it must not be shared (images may be built concurrently)
+var utf16Encoding = unicode.UTF16(unicode.BigEndian, unicode.IgnoreBOM) // ucs2 is utf16 actually
 
 // volumeDescriptorHeader represents the data in bytes 0-6
 // of a Volume Descriptor as defined in ECMA-119 8.1
@@ -352,7 +353,7 @@ func mangleStrA(in string, joliet bool) stringA {
 	}, in)
 
 	if joliet {
-		ret, _ = utf16Encoder.String(ret)
+		ret, _ = utf16Encoding.NewEncoder().String(ret)
 	}
 
 	return stringA(ret)
@@ -374,7 +375,7 @@ func mangleStrD(in string, joliet bool) stringD {
 	}, in)
 
 	if joliet {
-		ret, _ = utf16Encoder.String(ret)
+		ret, _ = utf16Encoding.NewEncoder().String(ret)
 	}
 
 	return stringD(ret)
@@ -401,7 +402,7 @@ func mangleStrD1(in string, joliet bool) stringD1 {
 	}, in)
 
 	if joliet {
-		ret, _ = utf16Encoder.String(ret)
+		ret, _ = utf16Encoding.NewEncoder().String(ret)
 	}
 
 	return stringD1(ret)
